@@ -7,7 +7,7 @@ from extbase import ExtBase, geometry_case, PATHS
 class C03(ExtBase):
     id = "C03"
     proof_target = "Props/C03.vo"
-    theorems = ["C03_partition", "C03_extract", "C03_lengths", "C03_pinned_refuted"]
+    theorems = ["C03_partition", "C03_extract", "C03_lengths", "C03_files_concat", "C03_pinned_refuted"]
     coq_header = ("From Rdest Require Import Base BCodec Metainfo Extract Corr.MetaCase Corr.C03.\n"
                   "Open Scope N_scope.\nDefinition codes := codes03.\n")
     rule = ("torrent geometries: piece length 1..5 x file-length lists (0..7 each, up to 4 files; a seeded sample in the "
